@@ -445,6 +445,9 @@ package trend
 //@ step[C01] "efficiency-ratio" forall j :: 0 <= j && j < len(ers) ==> ers[j] == abs(closings[j + k.ErPeriod] - closings[j]) / winS(absChS(closings), k.ErPeriod)[j]
 //@ guarantees[C01] "smoothing-constant" forall j :: 0 <= j && j < len(scs) ==> scs[j] == kamaScS(closings, k.ErPeriod, k.FastScPeriod, k.SlowScPeriod)[j]
 //@ guarantees[C01] "documented" forall kk :: 0 <= kk && kk < len(result) ==> result[kk] == kamaR(closings, scs, k.ErPeriod, kk)
+//@ step[C01] "sc" forall j :: 0 <= j && j < len(scs) ==> scs[j] == kamaScS(closings, k.ErPeriod, k.FastScPeriod, k.SlowScPeriod)[j]
+//@ use kamaR_cong(closings, scs, kamaScS(closings, k.ErPeriod, k.FastScPeriod, k.SlowScPeriod), k.ErPeriod, _)
+//@ ensures[C01] "documented-inputs" forall kk :: 0 <= kk && kk < len(result) ==> result[kk] == kamaR(closings, kamaScS(closings, k.ErPeriod, k.FastScPeriod, k.SlowScPeriod), k.ErPeriod, kk)
 
 // ---- C18: the documented formulas of package trend scale with the price unit --------------------------------------
 //@ lemma macdS_pscale(c stream, d stream, lam real, P1 int, m1 real, P2 int, m2 real, k int)
@@ -506,3 +509,48 @@ package trend
 //@ use ema3S_pscale(c, d, lam, P, k + 1)
 //@ use mul_lin(lam, ema3S(c, P)[k + 1], ema3S(c, P)[k])
 //@ use ratio_scale(lam, ema3S(c, P)[k + 1] - ema3S(c, P)[k], ema3S(c, P)[k])
+//@ lemma tpS_pscale(h stream, l stream, c stream, h2 stream, l2 stream, c2 stream, lam real, j int)
+//@ requires[C18] h2[j] == lam * h[j] && l2[j] == lam * l[j] && c2[j] == lam * c[j]
+//@ ensures[C18] tpS(h2, l2, c2)[j] == lam * tpS(h, l, c)[j]
+//@ use mul_lin(lam, h[j], l[j])
+//@ use mul_lin(lam, h[j] + l[j], c[j])
+//@ use div_scale(lam, h[j] + l[j] + c[j], 3)
+//@ lemma cciDevS_pscale(h stream, l stream, c stream, h2 stream, l2 stream, c2 stream, lam real, P int, n int, j int)
+//@ requires[C18] lam > 0 && P >= 1 && 0 <= j && j + P <= n && (forall i :: 0 <= i && i < n ==> h2[i] == lam * h[i] && l2[i] == lam * l[i] && c2[i] == lam * c[i])
+//@ ensures[C18] cciDevS(h2, l2, c2, P)[j] == lam * cciDevS(h, l, c, P)[j] && smaS(tpS(h2, l2, c2), P)[j] == lam * smaS(tpS(h, l, c), P)[j]
+//@ use forall i :: tpS_pscale(h, l, c, h2, l2, c2, lam, i)
+//@ use smaS_scale(tpS(h, l, c), tpS(h2, l2, c2), lam, P, j)
+//@ use mul_lin(lam, tpS(h, l, c)[j + P - 1], smaS(tpS(h, l, c), P)[j])
+//@ use abs_scale(lam, tpS(h, l, c)[j + P - 1] - smaS(tpS(h, l, c), P)[j])
+//@ lemma cciS_pscale(h stream, l stream, c stream, h2 stream, l2 stream, c2 stream, lam real, P int, n int, k int)
+//@ requires[C18] lam > 0 && P >= 1 && 0 <= k && k + 2 * P - 1 <= n && (forall i :: 0 <= i && i < n ==> h2[i] == lam * h[i] && l2[i] == lam * l[i] && c2[i] == lam * c[i]) && smaS(cciDevS(h, l, c, P), P)[k] != 0
+//@ ensures[C18] cciS(h2, l2, c2, P)[k] == cciS(h, l, c, P)[k]
+//@ use[cond] cciDevS_pscale(h, l, c, h2, l2, c2, lam, P, n, _)
+//@ use tpS_pscale(h, l, c, h2, l2, c2, lam, k + 2 * P - 2)
+//@ use smaS_scale(cciDevS(h, l, c, P), cciDevS(h2, l2, c2, P), lam, P, k)
+//@ use mul_lin(lam, tpS(h, l, c)[k + 2 * P - 2], smaS(tpS(h, l, c), P)[k + P - 1])
+//@ use ratio_scale(lam, tpS(h, l, c)[k + 2 * P - 2] - smaS(tpS(h, l, c), P)[k + P - 1], smaS(cciDevS(h, l, c, P), P)[k] * 0.015)
+//@ lemma kamaR_cong(c stream, s stream, t stream, P int, k int)
+//@ requires[C01,C18] forall j :: 0 <= j && j <= k ==> s[j] == t[j]
+//@ ensures[C01,C18] kamaR(c, s, P, k) == kamaR(c, t, P, k)
+//@ induction k from 0 - 1
+//@ lemma kama_step_scale(lam real, p real, s real, x real)
+//@ ensures[C18] lam * p + s * (lam * x - lam * p) == lam * (p + s * (x - p))
+//@ lemma kamaR_scale(c stream, d stream, s stream, t stream, lam real, P int, k int)
+//@ requires[C18] P >= 1 && k >= 0 - 1 && (forall j :: 0 <= j && j <= k + P ==> d[j] == lam * c[j]) && (forall j :: 0 <= j && j <= k ==> t[j] == s[j])
+//@ ensures[C18] kamaR(d, t, P, k) == lam * kamaR(c, s, P, k)
+//@ induction k from 0 - 1
+//@ use kama_step_scale(lam, kamaR(c, s, P, k - 1), s[k], c[P + k])
+//@ lemma absChS_pscale(c stream, d stream, lam real, i int)
+//@ requires[C18] lam > 0 && d[i] == lam * c[i] && d[i+1] == lam * c[i+1]
+//@ ensures[C18] absChS(d)[i] == lam * absChS(c)[i]
+//@ use mul_lin(lam, c[i+1], c[i])
+//@ use abs_scale(lam, c[i+1] - c[i])
+//@ lemma kamaScS_pscale(c stream, d stream, lam real, P int, F int, S int, n int, j int)
+//@ requires[C18] lam > 0 && P >= 1 && 0 <= j && j + P < n && (forall i :: 0 <= i && i < n ==> d[i] == lam * c[i]) && winS(absChS(c), P)[j] != 0
+//@ ensures[C18] kamaScS(d, P, F, S)[j] == kamaScS(c, P, F, S)[j]
+//@ use[cond] absChS_pscale(c, d, lam, _)
+//@ use smaS_scale(absChS(c), absChS(d), lam, P, j)
+//@ use mul_lin(lam, c[j + P], c[j])
+//@ use abs_scale(lam, c[j + P] - c[j])
+//@ use ratio_scale(lam, abs(c[j + P] - c[j]), winS(absChS(c), P)[j])
